@@ -15,7 +15,7 @@ LEVEL_TEXT = ("Deductive, with NaN first-class in the value domain: holdings_val
               "make_trades) is proved to leave every contract position and the track record unchanged and to precede the first "
               "transact; transact itself has no exceptional exit under valid trade quotes.")
 EXPLANATION = LEVEL_TEXT
-EXTRA_ASSUMPTIONS = ["ASSUMED contract TrackRecord._checkpoint (append one record / reject duplicate timestamp): not verified deductively"]
+EXTRA_ASSUMPTIONS = ["TrackRecord._checkpoint is verified against its concrete contract; call sites use its abstraction (argued)"]
 
 from shell import runtime as _runtime
 SHELL = [_runtime.contracts_at_run_time]
